@@ -68,6 +68,11 @@ var chkEquiv = vf.Register("options_equivalence", func(k *vf.C, c *EquivCase) er
 		k.Discard("baseline run does not finish cleanly (subject of C01/C05)")
 		return nil
 	}
+	if traceHasOverflow(base) || overflowText(base.ErrText) {
+		// (generated coroutine programs may die of an overflow on purpose)
+		k.Discard("the program reaches a limit under default options already: not within the limits")
+		return nil
+	}
 	t0 := maskAddrs(strings.Join(e1.GTraceStrings(base.Trace), "\n"))
 	res0 := maskAddrs(strings.Join(e1.GTraceStrings([]e1.GEvent{{Kind: "results", Vals: base.Results}}), "\n"))
 	used := 0
@@ -240,6 +245,20 @@ local ok, v = pcall(w) if not ok then local again = pcall(w) if again then error
 if not ok then error(v, 0) end return v`,
 		func(n int) string { return fmt.Sprint(n) }, func(c Config) int { return regLimit(c) }, true},
 	"recursion_in_xpcall": {`local function r(n) if n == 0 then return 0 end return 1 + r(n - 1) end local ok, v = xpcall(function() return r(N) end, function(m) return m end)
+if not ok then error(v, 0) end return v`,
+		func(n int) string { return fmt.Sprint(n) }, func(c Config) int { return c.CallStackSize }, false},
+	// every level of the recursion leaves a closure over one of its locals behind; after the overflow was caught (by xpcall,
+	// whose handler cannot run on the full stack, and by pcall) each closure still owns its variable
+	"closures_survive_overflow_in_xpcall": {`local keep = {} local function r(n) local mine = n * 10 keep[#keep + 1] = function() return mine end if n == 0 then return 0 end return 1 + r(n - 1) end
+local ok, v = xpcall(function() return r(N) end, function(m) return m end)
+local function churn(a, b, c, d, e, f) local t = {a, b, c, d, e, f} return #t end churn(1, 2, 3, 4, 5, 6)
+for i = 1, math.min(#keep, 60) do local got = keep[i]() if got ~= (N - i + 1) * 10 then error("closure " .. i .. " left behind by the recursion returns " .. tostring(got), 0) end end
+if not ok then error(v, 0) end return v`,
+		func(n int) string { return fmt.Sprint(n) }, func(c Config) int { return c.CallStackSize }, false},
+	"closures_survive_overflow_in_pcall": {`local keep = {} local function r(n) local mine = n * 10 keep[#keep + 1] = function() return mine end if n == 0 then return 0 end return 1 + r(n - 1) end
+local ok, v = pcall(r, N)
+local function churn(a, b, c, d, e, f) local t = {a, b, c, d, e, f} return #t end churn(1, 2, 3, 4, 5, 6)
+for i = 1, math.min(#keep, 60) do local got = keep[i]() if got ~= (N - i + 1) * 10 then error("closure " .. i .. " left behind by the recursion returns " .. tostring(got), 0) end end
 if not ok then error(v, 0) end return v`,
 		func(n int) string { return fmt.Sprint(n) }, func(c Config) int { return c.CallStackSize }, false},
 	"recursion_in_wrap": {`local function r(n) if n == 0 then return 0 end return 1 + r(n - 1) end local co = coroutine.create(r)
@@ -451,4 +470,80 @@ func sortStrings(s []string) {
 			s[j], s[j-1] = s[j-1], s[j]
 		}
 	}
+}
+
+
+// ---------------------------------------------------------------------------------------------
+// growth alignment: with a growable registry every way of laying out a frame is driven across every growth boundary at
+// every alignment (depth 1..D, 0..5 extra arguments): below the limit nothing may depend on where the boundaries fall
+
+type GrowCase struct {
+	Kind   string `json:"kind"`
+	Config Config `json:"config"`
+	Depth  int    `json:"max_depth"`
+}
+
+var growKinds = map[string]struct {
+	def    string // defines g
+	call   string // %d depth, %s extra arguments (", 1, 2" or "")
+	expect func(d, k int) string
+}{
+	"vararg_recursion": {`local function g(d, ...) if d == 0 then return select('#', ...) end return (g(d - 1, ...)) end`, `return g(%d%s)`, func(d, k int) string { return fmt.Sprint(k) }},
+	"vararg_with_named": {`local function g(d, a, b, ...) local x, y = a, b if d == 0 then return select('#', ...) end return (g(d - 1, x, y, ...)) end`, `return g(%d, 'a', 'b'%s)`, func(d, k int) string { return fmt.Sprint(k) }},
+	"compat_arg_table": {`local function g(d, ...) if d == 0 then return arg.n end return (g(d - 1, unpack(arg))) end`, `return g(%d%s)`, func(d, k int) string { return fmt.Sprint(k) }},
+	"plain_with_locals": {`local function g(d, a) local p, q, r = d, a, d if d == 0 then return a end return (g(d - 1, a)) end`, `return g(%d, select('#'%s))`, func(d, k int) string { return fmt.Sprint(k) }},
+	"callable_object": {`local g = setmetatable({}, {__call = function(self, d, ...) if d == 0 then return select('#', ...) end return (self(d - 1, ...)) end})`, `return g(%d%s)`, func(d, k int) string { return fmt.Sprint(k) }},
+	"method_calls": {`local o = {} function o:g(d, ...) if d == 0 then return select('#', ...) end return (self:g(d - 1, ...)) end`, `return o:g(%d%s)`, func(d, k int) string { return fmt.Sprint(k) }},
+	"through_pcall": {`local function g(d, ...) if d == 0 then return select('#', ...) end return select(2, pcall(g, d - 1, ...)) end`, `return g(%d%s)`, func(d, k int) string { return fmt.Sprint(k) }},
+	"tail_then_call": {`local h local function g(d, ...) if d == 0 then return select('#', ...) end return h(d, ...) end h = function(d, ...) local r = g(d - 1, ...) return r end`, `return g(%d%s)`, func(d, k int) string { return fmt.Sprint(k) }},
+	"varargs_in_table": {`local function g(d, ...) local t = {...} if d == 0 then return #t end return (g(d - 1, unpack(t))) end`, `return g(%d%s)`, func(d, k int) string { return fmt.Sprint(k) }},
+	"coroutine_body": {`local function g(d, ...) if d == 0 then return select('#', ...) end return (g(d - 1, ...)) end`, `return select(2, coroutine.resume(coroutine.create(g), %d%s))`, func(d, k int) string { return fmt.Sprint(k) }},
+}
+
+var chkGrow = vf.Register("growth_alignment", func(k *vf.C, c *GrowCase) error {
+	gk := growKinds[c.Kind]
+	L := lua.NewState(c.Config.options())
+	defer func() {
+		defer func() { recover() }()
+		L.Close()
+	}()
+	n := 0
+	for d := 1; d <= c.Depth; d++ {
+		for extra := 0; extra <= 5; extra++ {
+			args := ""
+			for i := 1; i <= extra; i++ {
+				args += fmt.Sprintf(", %d", i)
+			}
+			src := gk.def + "\n" + fmt.Sprintf(gk.call, d, args)
+			kind, val, pan := attempt(L, src, 0)
+			n++
+			if pan != "" {
+				return fmt.Errorf("%s depth %d with %d extra arguments under %+v: a Go panic escaped PCall: %s", c.Kind, d, extra, c.Config, pan)
+			}
+			if kind != "ok" || val != gk.expect(d, extra) {
+				return fmt.Errorf("%s depth %d with %d extra arguments under %+v, far below the limits: %s %q (expected %q)", c.Kind, d, extra, c.Config, kind, val, gk.expect(d, extra))
+			}
+		}
+	}
+	k.EvalN(n - 1)
+	k.Class("kind:" + c.Kind)
+	k.Nontrivial(vf.Hash(c.Kind, fmt.Sprint(c.Config)))
+	k.Sample(c.Kind, 1, map[string]any{"kind": c.Kind, "config": c.Config, "calls": n})
+	return nil
+})
+
+func TestGrowthAlignment(t *testing.T) {
+	var kinds []string
+	for n := range growKinds {
+		kinds = append(kinds, n)
+	}
+	sortStrings(kinds)
+	vf.Rapid(t, func(rt *rapid.T) {
+		c := &GrowCase{Kind: rapid.SampledFrom(kinds).Draw(rt, "kind"), Depth: 70,
+			Config: Config{CallStackSize: 256, MinimizeStack: rapid.Bool().Draw(rt, "min"),
+				RegistrySize:     rapid.SampledFrom([]int{128, 129, 160, 200, 255, 256, 257}).Draw(rt, "rs"),
+				RegistryMaxSize:  8192,
+				RegistryGrowStep: rapid.SampledFrom([]int{1, 2, 7, 31, 32, 33, 100}).Draw(rt, "gs")}}
+		chkGrow.Run(rt, c)
+	})
 }
